@@ -28,7 +28,7 @@ from kmip.core import attributes
 from kmip.core import enums
 from kmip.core import exceptions
 
-from kmip.core.objects import MACData, KeyWrappingData
+from kmip.core.objects import KeyMaterial, KeyWrappingData, MACData
 
 from kmip.core.factories import attributes as attribute_factory
 from kmip.core.factories import secrets
@@ -2684,7 +2684,9 @@ class KmipEngine(object):
                 )
 
                 core_secret = self._build_core_object(managed_object)
-                core_secret.key_block.key_value.key_material.value = result
+                core_secret.key_block.key_value.key_material = KeyMaterial(
+                    result
+                )
                 key_wrapping_data = KeyWrappingData(
                     wrapping_method=wrapping_method,
                     encryption_key_information=key_info,
